@@ -496,6 +496,10 @@ func TestVerifC22(t *testing.T) {
 		{lines: []string{"host: h2", "groups: [g1]", "cidr: 172.17.0.0/16"}, class: "host + groups + cidr", host: "h2", groups: []string{"g1"}, cidr: "172.17.0.0/16"},
 		{lines: []string{"host: h1", `local_cidr: ""`, `cidr: ""`}, class: "host + empty strings", host: "h1"},
 		{lines: []string{"host: h1", "ca_name: caN2", "ca_sha: sha3"}, class: "host + ca_name + ca_sha", host: "h1", caName: "caN2", caSha: "sha3"},
+		// nested remote cidrs with different local_cidr (used by the rule-list part: each rule must keep its own local_cidr
+		// whatever other rule's cidr covers or is covered by its own; peers sit at 10.0.0.2 (inside both) and 10.0.0.9 (/24 only))
+		{lines: []string{"cidr: 10.0.0.0/24", "local_cidr: 10.0.0.0/24"}, class: "cidr /24 + local_cidr overlay", cidr: "10.0.0.0/24", local: "10.0.0.0/24"},
+		{lines: []string{"cidr: 10.0.0.0/29", "local_cidr: 172.16.0.0/16"}, class: "cidr /29 + local_cidr unsafe", cidr: "10.0.0.0/29", local: "172.16.0.0/16"},
 		// statement silent: loading not judged
 		{lines: []string{"local_cidr: 172.16.0.0/16"}, st: c22Either, class: "only local_cidr", local: "172.16.0.0/16"},
 		{lines: []string{"ca_name: caN1"}, st: c22Either, class: "only ca_name", caName: "caN1"},
@@ -614,6 +618,8 @@ func TestVerifC22(t *testing.T) {
 		{proto("proto tcp"), port(`port: "fragment"`), selector("groups list")},
 		{proto("proto tcp"), port(`port: "81-80"`), selector("host")},      // must be rejected
 		{proto("proto tcp"), port(`port: "80"`), selector("cidr garbage")}, // must be rejected
+		{proto("proto tcp"), port(`port: "80"`), selector("cidr /24 + local_cidr overlay")}, // nested cidrs, each with its own local_cidr,
+		{proto("proto tcp"), port(`port: "80"`), selector("cidr /29 + local_cidr unsafe")},  // in both orders (and next to host / group rules)
 	}
 	_, done2 := mc.ParallelItems(len(small)*len(small), 0, stop, func(i int, _ *mc.Enum) {
 		for _, inbound := range []bool{true, false} {
